@@ -28,7 +28,20 @@ bool readable(int fd) { File& s = f(fd); if (s.shut_rd) return true; if (!s.rx.e
 bool writable(int fd) { File& s = f(fd); if (s.shut_wr) return true; File& p = f(s.peer); if (p.closed || p.shut_rd) return true; return p.rx.size() < CAP; }
 static bool hup(int fd) { File& s = f(fd); File& p = f(s.peer); return (p.closed || p.shut_wr) ; }
 
+static uint32_t ready_mask(int fd, const Interest& in);
+// edge-triggered interests re-arm when their direction becomes not-ready; evaluated after every state change
+static void refresh_edges() {
+    for (int e = 0; e < MAXFD; e++) if (F[e].kind == EPOLL) for (int i = 0; i < MAXFD; i++) {
+        Interest& in = F[e].in[i]; if (!in.on || !(in.events & EPOLLET) || F[i].kind == FREE) continue;
+        Interest all = in; all.events = EPOLLIN | EPOLLOUT;
+        uint32_t m = ready_mask(FD0 + i, all);
+        if (!(m & EPOLLIN)) in.et_reported_in = false;
+        if (!(m & EPOLLOUT)) in.et_reported_out = false;
+    }
+}
+struct EdgeGuard { ~EdgeGuard() { refresh_edges(); } };
 static ssize_t do_send(int fd, const iovec* iov, int cnt) {
+    EdgeGuard eg;
     File& s = f(fd); if (s.closed) { errno = EBADF; return -1; }
     File& p = f(s.peer);
     if (s.shut_wr || p.closed || p.shut_rd) { errno = EPIPE; return -1; }
@@ -43,6 +56,7 @@ static ssize_t do_send(int fd, const iovec* iov, int cnt) {
     return k;
 }
 static ssize_t do_recv(int fd, const iovec* iov, int cnt) {
+    EdgeGuard eg;
     File& s = f(fd); if (s.closed) { errno = EBADF; return -1; }
     size_t total = 0; for (int i = 0; i < cnt; i++) total += iov[i].iov_len;
     if (s.shut_rd) return 0;
@@ -55,8 +69,29 @@ static ssize_t do_recv(int fd, const iovec* iov, int cnt) {
     return k;
 }
 
+static uint32_t ready_mask(int fd, const Interest& in);
+// what epoll_wait(ep) would report now: the event mask per registered descriptor (0 = nothing), edge-trigger bookkeeping applied
+// (a direction that went not-ready re-arms its edge) but nothing consumed
+static int pending(int ep, epoll_event* ready, int* idx) {
+    int n = 0;
+    for (int i = 0; i < MAXFD; i++) {
+        Interest& in = f(ep).in[i]; if (!in.on || !in.armed || F[i].kind == FREE) continue;
+        uint32_t m = ready_mask(FD0 + i, in);
+        if (in.events & EPOLLET) {           // edge: report a direction once per not-ready -> ready transition
+            if (!(m & EPOLLIN)) in.et_reported_in = false;
+            if (!(m & EPOLLOUT)) in.et_reported_out = false;
+            if ((m & EPOLLIN) && in.et_reported_in) m &= ~EPOLLIN;
+            if ((m & EPOLLOUT) && in.et_reported_out) m &= ~EPOLLOUT;
+            if (!(m & (EPOLLIN | EPOLLOUT | EPOLLERR | EPOLLHUP))) m = 0;      // RDHUP alone is level information riding on an edge
+        }
+        if (!m) continue;
+        ready[n].events = m; ready[n].data.u64 = in.data; idx[n] = i; n++;
+    }
+    return n;
+}
 static uint32_t ready_mask(int fd, const Interest& in) {
     File& t = f(fd); uint32_t r = 0;
+    if (t.kind == EPOLL) { epoll_event ready[MAXFD]; int idx[MAXFD]; if (pending(fd, ready, idx) > 0) r |= EPOLLIN; return r & (in.events | EPOLLERR | EPOLLHUP); }   // nested epoll
     if (t.kind == EVENTFD) { if (t.counter > 0) r |= EPOLLIN; return r & (in.events | EPOLLERR | EPOLLHUP); }
     if (t.kind != SOCK || t.closed) return 0;
     if (readable(fd)) r |= EPOLLIN;
@@ -100,6 +135,7 @@ int close(int fd) {
 }
 int shutdown(int fd, int how) {
     if (!owns(fd)) return (int)PASS(shutdown, fd, how);
+    EdgeGuard eg;
     File& t = f(fd); if (how == SHUT_RD || how == SHUT_RDWR) t.shut_rd = true; if (how == SHUT_WR || how == SHUT_RDWR) t.shut_wr = true; return 0;
 }
 int fcntl(int fd, int cmd, ...) {
@@ -124,22 +160,7 @@ int epoll_wait(int ep, epoll_event* evs, int maxev, int timeout_ms) {
     if (!owns(ep)) return (int)PASS(epoll_wait, ep, evs, maxev, timeout_ms);
     n_epoll_wait++;
     for (int round = 0; round < 2; round++) {
-        epoll_event ready[MAXFD]; int idx[MAXFD]; int n = 0;
-        for (int i = 0; i < MAXFD; i++) {
-            Interest& in = f(ep).in[i]; if (!in.on || !in.armed || F[i].kind == FREE) continue;
-            uint32_t m = ready_mask(FD0 + i, in);
-            if (in.events & EPOLLET) {           // edge: report a direction once per not-ready -> ready transition
-                uint32_t raw = ready_mask(FD0 + i, in);
-                if (!(raw & EPOLLIN)) in.et_reported_in = false;
-                if (!(raw & EPOLLOUT)) in.et_reported_out = false;
-                uint32_t mm = m;
-                if ((m & EPOLLIN) && in.et_reported_in) mm &= ~EPOLLIN;
-                if ((m & EPOLLOUT) && in.et_reported_out) mm &= ~EPOLLOUT;
-                m = mm;
-            }
-            if (!m) continue;
-            ready[n].events = m; ready[n].data.u64 = in.data; idx[n] = i; n++;
-        }
+        epoll_event ready[MAXFD]; int idx[MAXFD]; int n = pending(ep, ready, idx);
         if (n > 0) {
             int take = std::min(n, maxev);
             // environment deviations: the kernel may report fewer events than are ready, or in another order
